@@ -99,6 +99,8 @@ impl ConnectionState {
 }
 
 impl BusListener {
+    // the cached-flag invariant of the leaf unit (part of bl_inv); uninterpreted here: teardown only removes listeners
+    pub uninterp spec fn flags_ok(&self) -> bool;
     //@fn-from broker_bus_listener broker/src/bus_listener.rs BusListener::conn_id
 }
 
